@@ -78,7 +78,7 @@ class Unit:
 
 class Scope:
     """Translation of one function body.  env: python name -> ('var', coq name) | ('static', kind) with kind in
-    node / colorizer / delim / state."""
+    node / colorizer / delim / state | ('global', the module-level object a local alias stands for)."""
     def __init__(self, unit: Unit, fn: ast.FunctionDef, globs: Dict[str, Any], env: Dict[str, Tuple[str, str]]):
         self.u, self.fn, self.globs, self.env = unit, fn, globs, dict(env)
         self.assigned = {k for k, v in env.items()}
@@ -92,8 +92,17 @@ class Scope:
         while isinstance(x, ast.Attribute):
             parts.append(x.attr)
             x = x.value
-        if not isinstance(x, ast.Name) or x.id in self.env:
+        if not isinstance(x, ast.Name):
             return False, None
+        if x.id in self.env:
+            if self.env[x.id][0] != 'global':
+                return False, None
+            obj = self.env[x.id][1]
+            for a in reversed(parts):
+                if not hasattr(obj, a):
+                    return False, None
+                obj = getattr(obj, a)
+            return True, obj
         if x.id in self.globs:
             obj = self.globs[x.id]
         elif hasattr(builtins, x.id):
@@ -361,6 +370,14 @@ class Scope:
                 bad('assignment target', s)
             t = s.targets[0]
             if isinstance(t, ast.Name):
+                # a local name for a module-level function / class / constant: `get_precedence = astor.op_util.get_op_precedence`
+                ok, obj = self.resolve(s.value)
+                if ok and (callable(obj) or isinstance(obj, (type, tuple))) and t.id not in self.env:
+                    self.env[t.id] = ('global', obj)
+                    self.assigned.add(t.id)
+                    return None
+                if t.id in self.env and self.env[t.id][0] == 'global':
+                    bad('rebinding of the alias %s' % t.id, s)
                 rhs = self.expr(s.value)
                 v = self.local(t.id)
                 self.assigned.add(t.id)
@@ -470,12 +487,7 @@ def generate() -> Dict[str, str]:
     sc = Scope(u, fn, R.__dict__, {names[0]: ('static', 'delim'), names[1]: ('static', 'colorizer'),
                                     names[2]: ('static', 'state'), names[3]: ('static', 'node')})
     code = sc.block(strip_doc(fn.body))
-    # __exit__ puts the parentheses exactly when `not self.discard`
-    ex = inspect.getattr_static(R._OperatorDelimiter, '__exit__')
-    exf = ast.parse(textwrap.dedent(inspect.getsource(ex))).body[0]
-    tests = [n for n in ast.walk(exf) if isinstance(n, ast.If)]
-    if len(tests) != 1 or ast.unparse(tests[0].test) != 'not self.discard' or tests[0].orelse:
-        bad('_OperatorDelimiter.__exit__ does not test `not self.discard` once')
+    probe_exit()
 
     delimited = probe_dispatch()
 
@@ -495,6 +507,31 @@ def generate() -> Dict[str, str]:
         lines.append('  | %s => %s' % (k, 'true' if v else 'false'))
     lines.append('  end.')
     return {'DelimCode.v': '\n'.join(lines) + '\n'}
+
+
+def probe_exit() -> None:
+    """__exit__ puts what was emitted since the constructor between ( and ) exactly when self.discard is false, and leaves
+    it alone otherwise -- checked on the live code (whatever its control flow) for both values of the flag."""
+    from docutils import nodes
+    from pydoctor.epydoc.markup import _pyval_repr as R
+    for flag in (True, False):
+        col = R.PyvalColorizer(linelen=None, maxlines=0, linebreakok=False)
+        st = R._ColorizerState()
+        st.linebreakok = False
+        st.result.append(nodes.Text('before'))
+        node = ast.UnaryOp(op=ast.USub(), operand=ast.Name(id='a', ctx=ast.Load()))
+        ast.fix_missing_locations(node)
+        d = R._OperatorDelimiter(col, st, node)
+        if not hasattr(d, 'discard'):
+            bad('_OperatorDelimiter has no attribute discard')
+        d.discard = flag
+        with d:
+            st.result.append(nodes.Text('x'))
+            st.result.append(nodes.Text('y'))
+        got = [n.astext() for n in st.result]
+        want = ['before', 'x', 'y'] if flag else ['before', '(', 'x', 'y', ')']
+        if got != want:
+            bad('_OperatorDelimiter.__exit__ with discard=%s leaves %r, expected %r' % (flag, got, want))
 
 
 def probe_dispatch() -> List[Tuple[str, bool]]:
